@@ -378,7 +378,57 @@ fn sizes_event(shapes: &[Shape], shp: &[u8]) -> Value {
 }
 
 /// emit all events of one case
+thread_local! {
+    /// light cases (the size-threshold sweep): one write, one sequential and one random-access read
+    static LIGHT: std::cell::Cell<bool> = std::cell::Cell::new(false);
+}
+
+/// content size (type code included) of a shape of type t with p parts and n points
+fn content_size(t: i32, p: usize, n: usize) -> usize {
+    let xy = match family(t) {
+        "multipoint" => 4 + 32 + 4 + 16 * n,
+        "multipatch" => 4 + 32 + 4 + 4 + 8 * p + 16 * n,
+        _ => 4 + 32 + 4 + 4 + 4 * p + 16 * n,
+    };
+    xy + if stores_z(t) { 16 + 8 * n } else { 0 } + if stores_m(t) { 16 + 8 * n } else { 0 }
+}
+
+/// shapes whose serialised size sits on and next to a power of two (content, content + record header, content
+/// without the type code): the sizes at which buffers of "round" capacities fill up exactly
+fn threshold_shapes(r: &mut Rng, t: i32, thresholds: &[usize], per: usize) -> Vec<AShape> {
+    let g = GenCfg { max_parts: 1, max_pts: 1, special_pct: 5, xy_span: 8 };
+    let mut out = vec![];
+    for &th in thresholds {
+        for target in [th - 12, th - 8, th - 4, th, th + 4] {
+            let mut found = 0;
+            'search: for p in 1..=4usize {
+                let minpts = if family(t) == "multipoint" { 1 } else { 2 * p };
+                for n in minpts..=(th / 16 + 4) {
+                    if content_size(t, p, n) == target {
+                        let parts: Vec<Vec<APoint>> = if family(t) == "multipoint" {
+                            vec![(0..n).map(|_| gen_point(r, t, &g)).collect()]
+                        } else {
+                            // n points over p parts, each at least 2
+                            let mut lens = vec![2usize; p];
+                            lens[p - 1] += n - 2 * p;
+                            lens.iter().map(|&l| (0..l).map(|_| gen_point(r, t, &g)).collect()).collect()
+                        };
+                        let kinds: Vec<i32> = if t == 31 { (0..p).map(|i| (i % 2) as i32).collect() } else if family(t) == "polygon" { vec![0; p] } else { vec![] };
+                        out.push(AShape { t, parts, kinds, bbox: [0; 8] });
+                        found += 1;
+                        if found >= per { break 'search; }
+                        break;
+                    }
+                }
+                if family(t) == "multipoint" { break; }
+            }
+        }
+    }
+    out
+}
+
 pub fn run_case(tr: &mut Trace, c: &Conc, prop: &str, t: i32, ashapes: &[AShape], tmp: &Path, id: usize) {
+    let light = LIGHT.with(|l| l.get());
     let built = guarded(|| ashapes.iter().map(|a| build(c, a)).collect::<Vec<Shape>>());
     let shapes = match built {
         Ok(s) => s,
@@ -400,6 +450,21 @@ pub fn run_case(tr: &mut Trace, c: &Conc, prop: &str, t: i32, ashapes: &[AShape]
             return;
         }
     };
+    if light {
+        if prop != "C18" {
+            tr.emit(json!({"ev": "written", "via": "cursor-drop", "shp": jbytes(&shp), "shx": jbytes(&shx)}));
+        }
+        if all || prop == "C18" {
+            tr.emit(sizes_event(&shapes, &shp));
+        }
+        if all || prop == "C01" {
+            let r = read_cursor_route(c, &shp, Some(&shx), t, true, false, n);
+            tr.emit(json!({"ev": "readback", "generic": true, "random": false, "withShx": true, "via": "cursor", "res": r}));
+            let r = read_cursor_route(c, &shp, None, t, false, false, n);
+            tr.emit(json!({"ev": "readback", "generic": false, "random": false, "withShx": false, "via": "cursor", "res": r}));
+        }
+        return;
+    }
     let path = path_variant(tmp, "c", id);
     let wrote_path = write_path(&shapes, &path);
     let shxp = path.with_extension("shx");
@@ -618,6 +683,17 @@ pub fn run(a: &Args) {
                 };
                 id += 1;
                 run_case(&mut tr, &c, &prop, t, &[many_parts], &tmp.0, id);
+            }
+            if ch == 1 % chunks && family(t) != "point" {
+                // sizes on and around powers of two, one shape per file
+                let ths: Vec<usize> = if a.get("tier", "quick") == "thorough" { vec![128, 256, 512, 1024, 2048, 4096, 8192, 16384, 65536] } else { vec![256, 1024, 4096] };
+                let per = if a.get("tier", "quick") == "thorough" { 2 } else { 1 };
+                LIGHT.with(|l| l.set(true));
+                for s in threshold_shapes(&mut r, t, &ths, per) {
+                    id += 1;
+                    run_case(&mut tr, &c, &prop, t, &[s], &tmp.0, id);
+                }
+                LIGHT.with(|l| l.set(false));
             }
             for _ in 0..large {
                 let n = 1 + r.below(3);
